@@ -179,14 +179,22 @@ CORPUS = [
 TYPES = ['int', 'int', 'int', 'long', 'str', 'str', 'cstr', 'ptr_raw', 'ptr_unique', 'ptr_shared', 'S']
 
 
-def generate(rng, ntrees, ntu=8):
-    """-> (files: {name: source}, lines: [model input lines in evaluation order])"""
+def reuse_ok(cpp):
+    return cpp.startswith('trompeloeil::') and not cpp.startswith('trompeloeil::_') or cpp.startswith('!') or cpp.startswith('*') \
+        or cpp.startswith('MEMBER_IS')
+
+
+def generate(rng, ntrees, ntu=8, drop=frozenset()):
+    """-> (files: {name: source}, lines: [model input lines in evaluation order], trees, blocks)
+    blocks: {(tu, first line, last line): (block id, C++ text)} — `drop` lists block ids to leave out (expressions
+    that no longer compile against the tree under test; the caller reports them)."""
     g = G(rng)
     trees = [(ty, Tree(c, t, p)) for ty, c, t, p in CORPUS]
     for i in range(ntrees):
         ty = TYPES[i % len(TYPES)]
         trees.append((ty, g.tree(ty)))
     lines = []
+    blocks = {}
     per_tu = [[] for _ in range(ntu)]
     # evaluation order = TU by TU, tree by tree, value by value
     for i, (ty, tr) in enumerate(trees):
@@ -195,15 +203,35 @@ def generate(rng, ntrees, ntu=8):
     for t in range(ntu):
         src = ['// generated by tools/matchergen.py — do not edit', '#include "hm.hpp"', 'namespace hm {',
                'void trees_%d() {' % t]
-        for ty, tr in per_tu[t]:
+        for bi, (ty, tr) in enumerate(per_tu[t]):
             run = {'int': 'run_int', 'long': 'run_long', 'str': 'run_str', 'cstr': 'run_cstr', 'ptr_raw': 'run_ptr_raw',
                    'ptr_unique': 'run_ptr_unique', 'ptr_shared': 'run_ptr_shared', 'S': 'run_S'}[ty]
-            src.append('  { auto m = %s; %s([&](auto const& x) { return trompeloeil::param_matches(m, std::ref(x)); }); }'
-                       % (tr.cpp, run))
             vtoks, vals = value_tokens(ty)
-            for vt, v in zip(vtoks, vals):
-                orc = oracle(tr.pats, v if ty in ('str', 'cstr') else None)
-                lines.append('%s | %s | %s' % (' '.join(tr.toks), vt, ' '.join(orc) if orc else '-'))
+            bid = 't%d.%d' % (t, bi)
+            if bid not in drop:
+                l0 = len(src) + 1
+                src.append('  { auto m = %s; %s([&](auto const& x) { return trompeloeil::param_matches(m, std::ref(x)); }); }'
+                           % (tr.cpp, run))
+                blocks[(t, l0, len(src))] = (bid, src[-1].strip())
+                for vt, v in zip(vtoks, vals):
+                    orc = oracle(tr.pats, v if ty in ('str', 'cstr') else None)
+                    lines.append('%s | %s | %s' % (' '.join(tr.toks), vt, ' '.join(orc) if orc else '-'))
+            # a matcher held in a named variable, composed (copied, not consumed) and then used again: composing must
+            # leave the operand as it was
+            if tr.toks[0] not in ('val', 'any', 'not', 'deref') and reuse_ok(tr.cpp) and (len(tr.cpp) % 3 != 0) and (bid + 'r') not in drop:
+                l0 = len(src) + 1
+                # (operands whose own type is not_matcher<…> or ptr_deref<…> are left out: copying a non-const lvalue of those types
+                #  by direct initialisation (`!m0`, any_of(m0, …)) does not compile with the unchanged library — their forwarding
+                #  constructor beats the copy constructor.  That is not a subject of C10 or of any other given property.)
+                src.append('  { auto m0 = %s; auto c1 = !m0; auto c2 = trompeloeil::any_of(m0, m0); auto c3 = trompeloeil::none_of(m0);' % tr.cpp)
+                for var in ('c1', 'c2', 'c3', 'm0'):
+                    src.append('    %s([&](auto const& x) { return trompeloeil::param_matches(%s, std::ref(x)); });' % (run, var))
+                src.append('  }')
+                blocks[(t, l0, len(src))] = (bid + 'r', ' '.join(x.strip() for x in src[l0 - 1:]))
+                for toks in (['not'] + tr.toks, ['anyof', '2'] + tr.toks + tr.toks, ['noneof', '1'] + tr.toks, tr.toks):
+                    for vt, v in zip(vtoks, vals):
+                        orc = oracle(tr.pats, v if ty in ('str', 'cstr') else None)
+                        lines.append('%s | %s | %s' % (' '.join(toks), vt, ' '.join(orc) if orc else '-'))
         src += ['}', '}']
         files['gen_trees_%d.cpp' % t] = '\n'.join(src) + '\n'
     main = ['#include "hm.hpp"', 'namespace hm { std::vector<char> out;']
@@ -212,4 +240,4 @@ def generate(rng, ntrees, ntu=8):
     main += ['  hm::trees_%d();' % t for t in range(ntu)]
     main += ['  for (char c : hm::out) std::puts(c == \'t\' ? "true" : "false");', '  return 0;', '}']
     files['gen_main.cpp'] = '\n'.join(main) + '\n'
-    return files, lines, trees
+    return files, lines, trees, blocks
